@@ -611,12 +611,34 @@ Qed.
 Theorem header_len_from_raw_spec d :
   (forall b0 b1 b2 b3 tl, d = b0 :: b1 :: b2 :: b3 :: tl -> 0 <= b3 < 256 ->
      header_len_from_raw d = Ok (4 + 2 * ((b3 / 16) mod 8 + 1) + (b3 mod 8 + 1))) /\
-  (len d < 4 -> header_len_from_raw d = Err EIndex).
+  (len d < 4 -> header_len_from_raw d = Err ETooShort).
 Proof.
   split.
-  - intros b0 b1 b2 b3 tl -> R. unfold header_len_from_raw. eval_get. cbn [bind].
+  - intros b0 b1 b2 b3 tl -> R. unfold header_len_from_raw, FIXED_LENGTH.
+    assert (L : len (b0 :: b1 :: b2 :: b3 :: tl) <? 4 = false).
+    { unfold len. cbn [length]. lia. }
+    rewrite L. eval_get. cbn [bind].
     destruct (oct3_unpack b3 R) as (_ & Q2 & _ & Q4). rewrite Q2, Q4. reflexivity.
-  - intros L. unfold header_len_from_raw. rewrite py_get_out_of_range by lia. reflexivity.
+  - intros L. unfold header_len_from_raw, FIXED_LENGTH.
+    destruct (len d <? 4) eqn:E; [reflexivity|lia].
+Qed.
+
+(* C10: every octet string gives a length or the documented too-short error
+   (before the repair c753acf: IndexError on fewer than 4 octets, witness [32;0;0]) *)
+Theorem header_len_from_raw_total d : wf_bytes d -> ok_or_documented (header_len_from_raw d).
+Proof.
+  intros W. destruct (header_len_from_raw_spec d) as [S1 S2].
+  destruct d as [|b0 [|b1 [|b2 [|b3 tl]]]];
+    try (rewrite S2 by (unfold len; cbn [length]; lia); reflexivity).
+  rewrite (S1 _ _ _ _ _ eq_refl); [exact I|].
+  unfold wf_bytes in W. inversion W as [|? ? _ W1]; subst. inversion W1 as [|? ? _ W2]; subst.
+  inversion W2 as [|? ? _ W3]; subst. inversion W3; subst. assumption.
+Qed.
+
+Theorem header_len_from_raw_prefix_rejected h n : hdr_valid h -> (n < 4)%nat ->
+  header_len_from_raw (firstn n (hdr_layout h)) = Err ETooShort.
+Proof.
+  intros V L. apply header_len_from_raw_spec. unfold len. rewrite firstn_length. lia.
 Qed.
 
 Theorem header_len_from_raw_pack h rest : hdr_valid h ->
@@ -641,11 +663,6 @@ Proof.
   rewrite <- (firstn_skipn (Z.to_nat (hdr_header_len h)) d). rewrite <- LY.
   apply header_len_from_raw_pack. assumption.
 Qed.
-
-(* C10 for header_len_from_raw: FALSE of the code as it is -- IndexError on fewer than 4 octets *)
-Theorem header_len_from_raw_total_refuted :
-  exists d, wf_bytes d /\ header_len_from_raw d = Err EIndex /\ documented EIndex = false.
-Proof. exists [32; 0; 0]. split; [repeat constructor; lia|]. split; reflexivity. Qed.
 
 (* ================= verify_length_and_checksum ================= *)
 
